@@ -273,6 +273,9 @@ def ceremonyOp : Op := fun j => do
 
 def signerOps : List (String × Op) := [
   ("ksrsigner", ceremonyOp),
+  ("pick_file", fun j => do
+      let cli : Option String ← optArg j "cli"; let cfg : Option String ← optArg j "cfg"
+      pure (toJson (pickFile cli cfg))),
   ("p11_init", fun j => do runTok j (← withModules j (fun mods => pure mods))),
   ("get_p11_key", fun j => do
       let label : String ← arg j "label"; let pub : Bool ← arg j "public"
